@@ -21,6 +21,7 @@ mod wl_life;
 mod wl_panic;
 mod wl_prog;
 mod wl_race;
+mod wl_reent;
 mod wl_seq;
 mod wl_serde;
 mod wl_wrap;
@@ -50,6 +51,17 @@ fn main() {
         "serde" => cmd_serde(&args),
         "panic" => cmd_panic(&args),
         "dual" => cmd_dual(&args),
+        "reent" => {
+            sched::set_mode(Mode::Off);
+            let n = wl_reent::run();
+            runner::with(|r| {
+                r.execs = n;
+                r.ops = n;
+            });
+            runner::count("reent.scenarios", n);
+            runner::count("distinct_nontrivial", n);
+            0
+        }
         "kinds" => cmd_kinds(&args),
         "selftest" => cmd_selftest(&args),
         other => {
